@@ -23,6 +23,11 @@ pub fn server_bytes(_a: &Value) -> Value {
         ("single-id-u64-max".into(), json!({"jsonrpc":"2.0","id":18446744073709551615u64,"result":1}).to_string()),
         ("garbage".into(), "\u{0}\u{1}garbage".into()),
         ("empty-array".into(), "[]".into()),
+        ("empty-frame".into(), "".into()),
+        ("whitespace-only-frame".into(), "  \n\t ".into()),
+        ("leading-whitespace-then-garbage".into(), "   x".into()),
+        ("lone-bracket".into(), "[".into()),
+        ("lone-brace".into(), "{".into()),
     ]);
     let panicked = Arc::new(std::sync::atomic::AtomicBool::new(false));
     let p2 = panicked.clone();
@@ -96,5 +101,44 @@ pub fn send_fails_on_unsubscribe(_a: &Value) -> Value {
         let violation = !ok || connected;
         json!({"scenario":"c09_send_fails_on_unsubscribe","observed":{"pending_call": format!("{res:?}").chars().take(100).collect::<String>(),"is_connected":connected},
                "violation":violation,"why": if violation {"a transport send error was swallowed: pending call did not fail with the cause / client still reports connected"} else {""}})
+    })
+}
+
+/// the connection ends with a cause while several consumers want it: two outstanding calls, a later call, on_disconnect() twice -
+/// every one of them must get the cause, none the "cause unknown" placeholder
+pub fn cause_for_everyone(_a: &Value) -> Value {
+    let rt = tokio::runtime::Builder::new_multi_thread().worker_threads(2).enable_all().build().unwrap();
+    rt.block_on(async {
+        let (c, mut s) = client(ClientBuilder::default().request_timeout(std::time::Duration::from_secs(3)));
+        let c = Arc::new(c);
+        let (c1, c2) = (c.clone(), c.clone());
+        let h1 = tokio::spawn(async move { c1.request::<Value, _>("a", rpc_params![]).await });
+        let h2 = tokio::spawn(async move { c2.request::<Value, _>("b", rpc_params![]).await });
+        let _ = s.next_request().await;
+        let _ = s.next_request().await;
+        s.push_raw("this is not json-rpc");
+        let mut seen: Vec<String> = vec![];
+        for h in [h1, h2] {
+            seen.push(match h.await {
+                Ok(Err(e)) => format!("{e:?}"),
+                other => format!("unexpected: {other:?}"),
+            });
+        }
+        seen.push(format!("{:?}", c.on_disconnect().await));
+        seen.push(match c.request::<Value, _>("later", rpc_params![]).await {
+            Err(e) => format!("{e:?}"),
+            Ok(v) => format!("unexpected Ok({v})"),
+        });
+        seen.push(format!("{:?}", c.on_disconnect().await));
+        let mut why = vec![];
+        for (i, e) in seen.iter().enumerate() {
+            if !e.contains("RestartNeeded") || e.contains("could not be found") {
+                why.push(format!("consumer #{i} got {}", e.chars().take(140).collect::<String>()));
+            }
+        }
+        if c.is_connected() {
+            why.push("is_connected() still true".into());
+        }
+        json!({"scenario":"c09_cause_for_everyone","observed":{"consumers":seen.len()},"violation":!why.is_empty(),"why":why.join(" | ")})
     })
 }
